@@ -3,6 +3,10 @@ use vcore::runner::{Ctx, Tier};
 
 mod c01;
 mod c02;
+mod c03;
+mod c04;
+mod c05;
+mod c06;
 mod c08;
 mod c15;
 
@@ -17,6 +21,10 @@ fn dispatch(ctx: &Ctx, replay: Option<&serde_json::Value>) {
     match ctx.property.as_str() {
         "C01" => c01::run(ctx, replay),
         "C02" => c02::run(ctx, replay),
+        "C03" => c03::run(ctx, replay),
+        "C04" => c04::run(ctx, replay),
+        "C05" => c05::run(ctx, replay),
+        "C06" => c06::run(ctx, replay),
         "C08" => c08::run(ctx, replay),
         "C15" => c15::run(ctx, replay),
         p => {
